@@ -144,7 +144,8 @@ func tokenSource(tok Token) string {
 	case STRING:
 		return quoteString(tok.Lit)
 	case REGEX:
-		return fmt.Sprintf("/%s/", tok.Lit)
+		// the lexer reads // as an escaped /
+		return fmt.Sprintf("/%s/", strings.ReplaceAll(tok.Lit, "/", "//"))
 	case DESCRIPTION:
 		return fmt.Sprintf("| %s", tok.Lit)
 	case COMMENT:
